@@ -327,9 +327,16 @@ pub fn chardef(space: SpaceMode, max_cats: usize) -> BoxedStrategy<CharDef> {
         ),
         0u8..3,
         vec(any::<u16>(), 3),
+        // categories beyond the 18 assignable ones (declared, never attached to a character):
+        // none (3/4), 1-14, or enough to approach the 255-category limit
+        (prop_oneof![12 => Just(0usize), 3 => 1usize..=14, 1 => 200usize..=236], any::<bool>()),
     )
-        .prop_map(move |(ncats, want_space, infos, raw_ranges, style, space_pick)| {
+        .prop_map(move |(ncats, want_space, infos, raw_ranges, style, space_pick, (extra, late_space))| {
             let want_space = want_space || space == SpaceMode::Exclusive;
+            // extras only make sense once all 18 assignable ids are taken
+            let extra = if max_cats >= 18 { extra } else { 0 };
+            let ncats = if extra > 0 { 18 } else { ncats };
+            let late_space = late_space && extra > 0 && want_space && space == SpaceMode::Free;
             let mut cats = vec![];
             for (i, (invoke, group, length)) in infos.iter().take(ncats).enumerate() {
                 let name = if i == 0 {
@@ -345,7 +352,7 @@ pub fn chardef(space: SpaceMode, max_cats: usize) -> BoxedStrategy<CharDef> {
                 });
             }
             let mut space_idx = None;
-            if want_space {
+            if want_space && !late_space {
                 if cats.len() >= 2 && space == SpaceMode::Free {
                     let i = 1 + pick(space_pick[0], cats.len() - 1);
                     cats[i].name = "SPACE".to_string();
@@ -364,6 +371,13 @@ pub fn chardef(space: SpaceMode, max_cats: usize) -> BoxedStrategy<CharDef> {
                     space_idx = Some(cats.len() - 1);
                 }
             }
+            // only the first 18 categories can be attached to characters
+            let assignable = cats.len();
+            for j in 0..extra {
+                let (invoke, group, length) = infos[j % infos.len()];
+                let name = if late_space && j == usize::from(space_pick[2]) % extra { "SPACE".to_string() } else { format!("X{}", 18 + j) };
+                cats.push(CatSpec { name, invoke, group, length });
+            }
             let mut ranges = vec![];
             for (a, b, cs, shape) in raw_ranges {
                 let i = pick(a, npts);
@@ -378,7 +392,7 @@ pub fn chardef(space: SpaceMode, max_cats: usize) -> BoxedStrategy<CharDef> {
                         (points[i.min(j)], points[i.max(j)])
                     }
                 };
-                let mut rc: Vec<usize> = cs.iter().map(|&c| pick(c, cats.len())).collect();
+                let mut rc: Vec<usize> = cs.iter().map(|&c| pick(c, assignable)).collect();
                 rc.dedup();
                 if space == SpaceMode::Exclusive {
                     let sp = space_idx.unwrap();
@@ -648,7 +662,7 @@ pub fn dict_spec(p: DictParams) -> BoxedStrategy<DictSpec> {
             // every category has at least one entry (a category without entries is an open
             // known finding, see known_findings.json; excluded by construction)
             for c in (0..ncat).rev() {
-                let (l, r, cost) = base_unk[c];
+                let (l, r, cost) = base_unk[c % base_unk.len()];
                 unk.push(UnkRow {
                     cat: c,
                     left: (usize::from(l) % nl) as u16,
